@@ -915,6 +915,28 @@ def family_shapes():
             "start": "A",
         },
     )
+    # S36 a concrete class that refers to itself directly (through a union), on no cycle through an abstract type
+    out.append(
+        {
+            "name": "S36:direct-self-reference",
+            "abstract": [],
+            "prods": [["Nil", None, None, []], ["Cons", None, None, [["head", IR01], ["tail", ["union", ref("Cons"), ref("Nil")]]]]],
+            "start": "Cons",
+        },
+    )
+    # S37 a concrete child embedded directly as a field type; its dependent refinement names a sibling of its own that
+    # has the same name as an earlier field of the enclosing class
+    out.append(
+        {
+            "name": "S37:dependent-same-name-outside",
+            "abstract": [],
+            "prods": [
+                ["C", None, None, [["a", ["ann", "int", ["IntRange", 2, 3]]], ["b", ["ann", "int", ["Dep", "a", ["IntRangeFrom", 3]]]]]],
+                ["P", None, None, [["a", IR01], ["c", ref("C")]]],
+            ],
+            "start": "P",
+        },
+    )
     # S16 union of two abstract types of different minimum depth
     out.append(
         {
@@ -984,7 +1006,7 @@ def finite_family(tier: str):
     fa = finite_alphabet()
     out = list(family_one_abstract(fa, 1 if tier == "quick" else 2, "F1"))
     out += [s for s in family_shapes() if s["name"].split(":")[0] in
-            ("S1", "S2", "S3", "S4", "S5", "S6", "S7", "S8", "S9", "S10", "S12", "S13", "S14", "S15", "S16", "S17", "S18", "S19", "S20", "S22", "S23", "S24", "S26", "S27", "S28", "S29", "S30", "S31", "S32", "S33", "S34", "S35")]
+            ("S1", "S2", "S3", "S4", "S5", "S6", "S7", "S8", "S9", "S10", "S12", "S13", "S14", "S15", "S16", "S17", "S18", "S19", "S20", "S22", "S23", "S24", "S26", "S27", "S28", "S29", "S30", "S31", "S32", "S33", "S34", "S35", "S36", "S37")]
     out += list(family_two_abstract(finite_alphabet, "F2"))
     out += list(family_nested(finite_alphabet, "F3"))
     return out
